@@ -3,6 +3,7 @@ package rules
 import (
 	"go/token"
 	"go/types"
+	"sort"
 	"strconv"
 	"strings"
 	"unicode"
@@ -638,6 +639,23 @@ func RunGeneric(prop string, p *an.Prog, r *an.Run) {
 	r.Check(len(cb) == 0, "cancel-after-use", strings.Join(pk, ","), token.NoPos, "no context is cancelled ahead of its use", "%s", strings.Join(cb, "; "))
 	gl, _ := goCapturesLive(p, scopeWant(pk))
 	r.Check(len(gl) == 0, "go-captures-live", strings.Join(pk, ","), token.NoPos, "no goroutine reads a captured variable its spawner goes on to assign", "%s", strings.Join(gl, "; "))
+	var rl []string
+	nLockFns := 0
+	for _, fn := range p.Repo {
+		if p.IsTestFunc(fn) || isTestDoublePkg(fn) || !scopeWant(pk)(fn) {
+			continue
+		}
+		nLockFns++
+		for _, x := range p.Relocks(fn) {
+			via := "directly"
+			if x.Via != nil {
+				via = "inside " + an.FuncName(x.Via)
+			}
+			rl = append(rl, an.FuncName(fn)+" acquires "+string(x.Key)+" "+via+" at "+p.Pos(x.At.Pos())+" while already holding it: sync mutexes are not reentrant, the goroutine blocks on itself and every other user of the mutex behind it")
+		}
+	}
+	sort.Strings(rl)
+	r.Check(len(rl) == 0 && nLockFns > 0, "no-relock", strings.Join(pk, ","), token.NoPos, "no mutex is acquired by a goroutine that already holds it", "%s", strings.Join(dedup(rl), "; "))
 	sr, _ := sharedResults(p, scopeWant(pk))
 	r.Check(len(sr) == 0, "shared-result", strings.Join(pk, ","), token.NoPos, "no method of a lock-guarded type returns the guarded storage itself", "%s", strings.Join(sr, "; "))
 	tc, _ := trimCutsetMisuse(p, scopeWant(pk))
